@@ -19,7 +19,7 @@ use proptest::prelude::*;
 use proptest::strategy::BoxedStrategy;
 use serde_json::{json, Value};
 
-pub const DIMS: [&str; 13] = ["capacity", "id", "alpha", "byte-value", "datum-length", "group-shape", "edges", "char", "vertex-count", "unread-count", "alias-pair", "pairs", "big-image"];
+pub const DIMS: [&str; 15] = ["capacity", "id", "alpha", "byte-value", "datum-length", "group-shape", "edges", "char", "vertex-count", "unread-count", "alias-pair", "repeat-count", "mirror-twins", "pairs", "big-image"];
 
 pub struct Scenario {
     pub cfg: Cfg,
@@ -72,8 +72,12 @@ pub fn points(dim: &str, thorough: bool, prop: &str) -> Vec<u64> {
             v
         }
         "byte-value" => (0..12 * 256).collect(),
-        "datum-length" => (0..=if thorough { 9000 } else { 2100 }).collect(),
-        "group-shape" => (0..=14u64).flat_map(|g| (2..=16u64).map(move |m| g * 32 + m)).collect(),
+        // (C09: every cut point up to 2100 bytes; above that — up to 9000, so that the image passes
+        // 4096 and 8192 bytes — the file size, the complete image and the last cut point only)
+        "datum-length" => (0..=if thorough || prop == "C09" { 9000 } else { 2100 }).collect(),
+        // x = copy << 10 | g << 5 | m; copy: the graph is replaced by a copy of itself (none, save+load,
+        // clone, clone_from) before one more group is formed, filled, read and collected
+        "group-shape" => (0..4u64).flat_map(|c| (0..=14u64).flat_map(move |g| (2..=16u64).map(move |m| c << 10 | g * 32 + m))).collect(),
         "edges" => (0..9u64).flat_map(|ns| (0..=N_TABLE[ns as usize] as u64).map(move |e| ns * 64 + e)).collect(),
         // k present vertices in a store of exactly k slots (every slot alive) — and of k+7 slots
         "vertex-count" => {
@@ -92,6 +96,12 @@ pub fn points(dim: &str, thorough: bool, prop: &str) -> Vec<u64> {
         "unread-count" => (0..4u64).flat_map(|var| (2..=16u64).flat_map(move |m| (0..=m).map(move |u| var * 1024 + m * 32 + u))).collect(),
         // two ids congruent modulo 2^k (k = 6..=12), 1..=3 multiples apart: x = k*64 + m*8 + which y
         "alias-pair" => (6..=12u64).flat_map(|k| (1..=3u64).flat_map(move |m| (0..2u64).map(move |w| k * 64 + m * 8 + w))).collect(),
+        // the same mutation / the same query repeated R times between two looks at something else
+        // (counters and generation stamps of 8 and 16 bits wrap here)
+        "repeat-count" => vec![1, 2, 3, 127, 128, 129, 254, 255, 256, 257, 258, 511, 512, 513, 65_534, 65_535, 65_536, 65_537],
+        // two vertices with the same edges bound in opposite order and the same data: x = variant bits
+        // (1: both collected, reached through dangling edges; 2: ids 64 apart instead of adjacent; 4: data differ)
+        "mirror-twins" => (0..8).collect(),
         // every PAIR of dimensions at their boundary values on one composite scenario:
         // x = pair << 16 | i << 8 | j
         "pairs" => {
@@ -349,6 +359,8 @@ pub fn build_for(dim: &str, x: u64, drain: bool) -> Option<Scenario> {
             calls.extend([Call::Add(0), Call::Add(1), bind(0, 1, Lab::Alpha(0)), Call::Put(1, pat(x as usize, 7)), Call::Put(0, vec![7])]);
         }
         "group-shape" => {
+            let copy = x >> 10;
+            let x = x & 1023;
             let (g, m) = ((x / 32) as usize, (x % 32) as usize);
             let cap = g * m + 9;
             cfg = Cfg { n: 2, cap };
@@ -367,6 +379,16 @@ pub fn build_for(dim: &str, x: u64, drain: bool) -> Option<Scenario> {
             }
             calls.push(Call::Add(cap - 1));
             calls.push(Call::Put(cap - 1, pat(4, 9)));
+            match copy {
+                1 => calls.push(Call::SaveLoad),
+                2 => calls.push(Call::Clone),
+                3 => calls.push(Call::CloneInto { cap, ids: vec![cap - 2, cap - 3] }),
+                _ => {}
+            }
+            // one more group, when the limit allows it (validity is judged on the model): formed,
+            // filled, read, collected
+            let (p, q) = (g * m, g * m + 1);
+            calls.extend([Call::Add(p), Call::Add(q), bind(p, q, Lab::Greek('z')), Call::Put(q, pat(3, 77)), Call::Data(q)]);
             calls.push(Call::NextIdAdd);
         }
         "edges" => {
@@ -445,6 +467,59 @@ pub fn build_for(dim: &str, x: u64, drain: bool) -> Option<Scenario> {
                 calls.extend([Call::Data(xx), Call::Data(z), Call::Add(y), Call::Add(xx), Call::Kids(y), Call::Kids(xx), Call::Add(z), Call::Kids(z)]);
             }
         }
+        "repeat-count" => {
+            let r = x as usize;
+            cfg = Cfg { n: 2, cap: 10 };
+            let s = |t: &str| Lab::Str(t.into());
+            for v in 0..7 {
+                calls.push(Call::Add(v));
+            }
+            calls.extend([
+                bind(0, 1, s("aa")), bind(1, 2, s("bb")), bind(5, 6, s("cc")),
+                Call::Put(2, pat(9, 51)), Call::Put(6, vec![6]),
+                Call::Kid(0, s("aa")), Call::Kids(0),
+            ]);
+            // R edge changes: R - 1 times the same bind in the other component, then the edge
+            // that was looked up is pointed elsewhere
+            for _ in 1..r {
+                calls.push(bind(5, 6, s("cc")));
+            }
+            calls.extend([bind(0, 3, s("aa")), Call::Kid(0, s("aa")), Call::Kids(0), Call::Kid(5, s("cc"))]);
+            // R overwriting puts and R reads of one datum, then a look at the other one
+            if r <= 600 {
+                for k in 0..r {
+                    calls.push(Call::Put(6, vec![k as u8; 1 + k % 3]));
+                }
+                for _ in 0..r {
+                    calls.push(Call::Kids(5));
+                }
+            }
+            calls.push(Call::Kid(0, s("aa")));
+        }
+        "mirror-twins" => {
+            let (dead, far, differ) = (x & 1 == 1, x & 2 == 2, x & 4 == 4);
+            let (a, b) = (10usize, if far { 74 } else { 11 });
+            cfg = Cfg { n: 2, cap: 80 };
+            for v in [0, 1, a, b, 20, 21] {
+                calls.push(Call::Add(v));
+            }
+            calls.extend([
+                bind(0, 1, Lab::Greek('g')), Call::Put(1, pat(9, 61)),
+                bind(a, 20, Lab::Alpha(0)), bind(a, 21, Lab::Alpha(1)),
+                bind(b, 21, Lab::Alpha(1)), bind(b, 20, Lab::Alpha(0)),
+                Call::Put(a, pat(12, 62)), Call::Put(b, if differ { pat(12, 63) } else { pat(12, 62) }),
+                Call::Put(20, vec![2]),
+            ]);
+            // the root reaches both twins from another group
+            calls.extend([bind(0, a, Lab::Str("le".into())), bind(1, b, Lab::Str("ri".into()))]);
+            calls.extend([Call::Data(a), Call::Data(b), Call::Kids(a), Call::Kids(b)]);
+            if dead {
+                calls.push(Call::Data(20)); // the twins' group is collected; 0 and 1 keep dangling edges
+                calls.extend([Call::SliceAny(0), Call::SliceAny(1)]);
+            } else {
+                calls.extend([Call::Slice(0), Call::Slice(1)]);
+            }
+        }
         "big-image" => match x {
             0 => {
                 cfg = Cfg { n: 1, cap: 1_500_000 };
@@ -485,7 +560,7 @@ pub fn build_for(dim: &str, x: u64, drain: bool) -> Option<Scenario> {
         }
         _ => return None,
     }
-    if matches!(dim, "capacity" | "id" | "alpha" | "group-shape" | "edges" | "char" | "alias-pair") && !(dim == "alias-pair" && drain) {
+    if matches!(dim, "capacity" | "id" | "alpha" | "group-shape" | "edges" | "char" | "alias-pair" | "mirror-twins") && !(dim == "alias-pair" && drain) {
         feature_tail(cfg, &mut calls);
     }
     Some(Scenario { cfg, calls })
@@ -543,23 +618,39 @@ fn with_drain(s: &Scenario) -> Vec<Call> {
     out
 }
 
-fn script_of(calls: &[Call]) -> Option<(String, usize, Vec<Call>)> {
+fn queries_of(calls: &[Call]) -> Vec<Call> {
+    let mut q: Vec<Call> = calls.iter().filter(|c| matches!(c, Call::Kid(..) | Call::Kids(_) | Call::Slice(_) | Call::SliceAny(_) | Call::SliceSome(..))).cloned().collect();
+    q.dedup();
+    q.truncate(40);
+    q
+}
+
+fn script_of(cfg: Cfg, calls: &[Call]) -> Option<(String, usize, Vec<Call>)> {
     let mut text = String::new();
     let mut direct = vec![];
+    // what a script cannot say is left out; what is left is judged again on the model (without
+    // the reads, a group that would have been collected is still alive and may make a later
+    // bind overrun a limit)
+    let mut r = Runner::new(cfg);
     for c in calls {
-        match c {
-            Call::Add(v) => text.push_str(&format!("ADD(ν{v});\n")),
+        let piece = match c {
+            Call::Add(v) => format!("ADD(ν{v});\n"),
             Call::Bind { a, b, l, .. } => {
                 if !l.parse_roundtrips() {
                     return None;
                 }
-                text.push_str(&format!("BIND(ν{a}, ν{b}, {});\n", l.text()));
+                format!("BIND(ν{a}, ν{b}, {});\n", l.text())
             }
             // the script grammar has no empty datum: such a put is left out on both sides
             Call::Put(_, d) if d.is_empty() => continue,
-            Call::Put(v, d) => text.push_str(&format!("PUT(ν{v}, {});\n", crate::calls::hexs(d))),
+            Call::Put(v, d) => format!("PUT(ν{v}, {});\n", crate::calls::hexs(d)),
             _ => continue,
+        };
+        if !r.valid(c) {
+            continue;
         }
+        r.step(c);
+        text.push_str(&piece);
         direct.push(c.clone());
     }
     Some((text, direct.len(), direct))
@@ -602,7 +693,14 @@ pub fn judge_point(prop: &'static str, dim: &str, x: u64) -> Option<Option<Failu
             if go {
                 d.epilogue(x as u16);
             }
-            d.out.failure
+            let loud = d.out.failure.clone();
+            if loud.is_none() && prop == "C03" {
+                // once more with nothing asked between the scenario's own queries
+                let mut q = crate::engine::C03::quiet();
+                crate::engine::run_concrete(s.cfg, &s.calls, &mut q, None).failure
+            } else {
+                loud
+            }
         }
         "C07" => {
             // executed for the sanitizer's sake: the scenario, every query, the copies
@@ -618,15 +716,17 @@ pub fn judge_point(prop: &'static str, dim: &str, x: u64) -> Option<Option<Failu
             }
             None
         }
-        "C08" => TwinEngine { kind: TwinKind::SaveLoad }.execute_public(s.cfg, &s.calls, x as u16, &[]).0,
-        "C10" => TwinEngine { kind: TwinKind::Clone }.execute_public(s.cfg, &s.calls, x as u16, &[]).0,
+        // the scenario builds the graph; its queries are asked again of both copies after the split
+        "C08" => TwinEngine { kind: TwinKind::SaveLoad }.execute_public(s.cfg, &s.calls, x as u16, &queries_of(&s.calls)).0,
+        "C10" => TwinEngine { kind: TwinKind::Clone }.execute_public(s.cfg, &s.calls, x as u16, &queries_of(&s.calls)).0,
         "C14" => {
-            let (text, commands, direct) = script_of(&s.calls)?;
+            let (text, commands, direct) = script_of(s.cfg, &s.calls)?;
             TwinEngine { kind: TwinKind::Script { text, commands, prefix: vec![] } }.execute_public(s.cfg, &direct, x as u16, &[]).0
         }
         "C09" => {
             let r = digraph::replay_calls(s.cfg, &s.calls)?;
-            PrefixEngine { all_prefixes: true }.check(s.cfg, &r, None).0
+            let light = dim == "datum-length" && x > 2100;
+            PrefixEngine { all_prefixes: true }.check(s.cfg, &r, if light { Some(usize::MAX) } else { None }).0
         }
         "C13" => {
             let r = digraph::replay_calls(s.cfg, &s.calls)?;
@@ -643,7 +743,28 @@ pub fn judge_point(prop: &'static str, dim: &str, x: u64) -> Option<Option<Failu
         }
         "C20" => {
             let r = digraph::replay_calls(s.cfg, &s.calls)?;
-            digraph::check_printers(&r, &mut digraph::Stats::default())
+            let first = digraph::check_printers(&r, &mut digraph::Stats::default());
+            if first.is_none() && dim == "repeat-count" {
+                // the answer to a query does not depend on how often OTHER queries were asked in
+                // between: inspect(0), then exactly R - 1 times inspect() of the other component,
+                // then inspect(0) again — the R-th call after the first; the same for v_print and Debug
+                let before = (r.g.inspect(0).ok(), r.g.v_print(1).ok(), r.g.debug());
+                for _ in 1..x {
+                    let _ = r.g.inspect(5);
+                }
+                let after_inspect = r.g.inspect(0).ok();
+                for _ in 1..x {
+                    let _ = r.g.v_print(5);
+                }
+                let after = (after_inspect, r.g.v_print(1).ok(), r.g.debug());
+                if before != after {
+                    Some(Failure { prop: "C20".into(), kind: "print.depends_on_earlier_queries".into(), step: x as usize, detail: format!("inspect(0) / v_print(1) / Debug before {:?} and after {} other queries {:?}", before, x - 1, after) })
+                } else {
+                    digraph::check_printers(&r, &mut digraph::Stats::default())
+                }
+            } else {
+                first
+            }
         }
         "C19" => {
             let calls = with_drain(&s);
